@@ -174,5 +174,32 @@ fn main() {
     );
     drain_infra(&mut ck, &ctx);
 
+    // 4. one request line, many segmentations
+    let c4 = ctx.clone();
+    ck.run(
+        Section::enumerate(
+            "split-request-line",
+            "v1 summary / versions / cdns / bgdl and v2 versions / cdns / bgdl, terminated by CRLF or LF, written to the TCP server in two pieces (cut at the first three, the last three and every third position; 15 ms apart, TCP_NODELAY) and in three pieces at 14 pairs of positions: the answer must equal the answer to the line written in one piece (the `## seqn` and `Checksum:` lines, which follow the clock, left out)",
+            || Box::new(net::split_cases().into_iter()),
+            move |c: &net::SplitCase| {
+                let run = match net::run_split_case(&c4, c) {
+                    Ok(r) => r,
+                    Err(CaseAbort::Rejected(_)) => return Verdict::pass().class("db-rejected-by-validation"),
+                    Err(CaseAbort::Infra(m)) => {
+                        c4.infra(m);
+                        return Verdict::pass().class("infra-skipped");
+                    }
+                };
+                let mut v = Verdict::pass().nontrivial(run.nontrivial);
+                for cl in &run.classes {
+                    v = v.class(cl);
+                }
+                verdict_from(&c4, v, run.findings)
+            },
+        )
+        .shards(tier.pick(14, 16)),
+    );
+    drain_infra(&mut ck, &ctx);
+
     ck.finish();
 }
